@@ -100,6 +100,9 @@ type World struct {
 	parkHandled bool
 	nParks      int
 	onParked    func(site string)
+	// parkedReturn: runFor may end (deadline or predicate) while a client
+	// goroutine is parked.
+	parkedReturn bool
 	// freeRun: engine E5's mode. Nodes answer at once from their own
 	// goroutines; nothing may touch the tape, the event queue or the run
 	// context from there.
@@ -115,8 +118,8 @@ type yieldPlan struct {
 }
 
 // yieldSites are the hook-H7 sites of the block manager.
-var yieldSites = []string{"headers.beforeTipUpdate", "reorg.afterRollback", "rollback.afterBlock",
-	"cfheaders.afterStoreWrite", "cfheaders.afterEvent"}
+var yieldSites = []string{"headers.beforeTipUpdate", "reorg.afterRollback", "rollback.beforeBlock",
+	"cfheaders.afterStoreWrite", "cfheaders.beforeEvent"}
 
 // armYield plans one park: the nth time from now that a client goroutine
 // reaches site it sleeps there for dur of simulated time.
@@ -129,6 +132,16 @@ func (w *World) armYield(site string, nth int, dur time.Duration) {
 
 // yieldHook is neutrino.VerifYield for this run. It runs on client goroutines.
 func (w *World) yieldHook(site string) {
+	if site == "cfheaders.caughtUp" {
+		// The filter-header goroutine found the stores level although
+		// the in-memory tips differ, and is about to look again at once.
+		// In a deployment that busy-wait ends when the block handler
+		// finishes its step; in a bubble it would keep simulated time
+		// (and with it a parked block handler) from ever moving. It
+		// becomes a one-millisecond wait here.
+		time.Sleep(time.Millisecond)
+		return
+	}
 	w.ymu.Lock()
 	w.yieldSeen[site]++
 	var hit *yieldPlan
@@ -438,16 +451,26 @@ func (w *World) runFor(d time.Duration, pred func() bool) bool {
 	maxSteps := w.steps + 200000
 	for !w.halt {
 		synctest.Wait()
-		if pred != nil && pred() {
-			return true
-		}
-		if !time.Now().Before(deadline) {
-			return pred == nil
+		// While a client goroutine is parked half-way through a chain
+		// change nothing is judged and no phase ends (unless the scenario
+		// asked to be handed exactly such instants).
+		parked := w.parkedAt() != ""
+		if !parked || w.parkedReturn {
+			if pred != nil && pred() {
+				return true
+			}
+			if !time.Now().Before(deadline) {
+				return pred == nil
+			}
 		}
 		if w.steps > maxSteps {
 			w.rc.Infra("step cap reached in runFor(%v) at t=%s", d, w.clock())
 		}
-		w.stepUntil(deadline, nil)
+		dl := deadline
+		if !time.Now().Before(dl) {
+			dl = time.Now().Add(10 * time.Second) // until the park ends
+		}
+		w.stepUntil(dl, nil)
 	}
 	return false
 }
